@@ -5,7 +5,10 @@ package main
 // everywhere in the state.  This keeps index terms syntactically aligned
 // (`len'` becomes `len + n`), which is what the solvers' pattern matching needs.
 
-import "strings"
+import (
+	"sort"
+	"strings"
+)
 
 func substVal(v Val, m map[string]*Term, seen map[interface{}]Val) Val {
 	if v == nil {
@@ -189,6 +192,16 @@ func (st *State) propagate(m map[string]*Term) {
 		if !g.IsTrue() {
 			nf = append(nf, g)
 		}
+	}
+	// the defining equations themselves stay among the facts: a lazily materialised field that is
+	// forced only later re-creates the variable, which must still be tied to its definition
+	var ks []string
+	for k := range m {
+		ks = append(ks, k)
+	}
+	sort.Strings(ks)
+	for _, k := range ks {
+		nf = append(nf, Eq(Var(k, m[k].Sort), m[k]))
 	}
 	st.facts = nf
 }
